@@ -16,6 +16,19 @@ ignored here; floats are the 16 hex digits of their IEEE bits; data row-major, n
   rdelaycol S | nt.. | dflt | name=d .. | pred        _build_per_column_delays + _apply_resample_and_delay_columnwise
   gb        S | label | pat target v.. , .. | pat target v.. , ..     SignalTransform._apply_gains_biases (gains | biases)
 
+Python-level representation of the arguments.  Every line may end with one more section
+  `| types key=tag key=tag ..`
+that tells the Python side HOW to pass the (same) numbers to the real code: as python ints or floats, numpy
+scalars of several dtypes, lists or arrays, integer-dtype arrays, 1-D data, ...  The documented meaning of an
+argument does not depend on its Python type (a delay `1` is the delay `1.0`), so the model ignores the tags --
+but it validates them (unknown key for the op, duplicate key, a tag that cannot represent the value exactly,
+e.g. `int` on a fractional number or `npf32` on a double that is not a float32: `bad-op`), with the same rules
+as the harness.  Keys: `data` f64|i64|1d, `tsd` (dtype of ts.times) f64|i64, `idx` (signal_mapping indices)
+i64|i32|list|int, `nt`/`t2` (target times) f64|i64|view, `v` (Parameter nominal) arr|list|ilist|i64|f32|float|
+npf64|int, `gv`/`bv` (one `v` tag per gain/bias entry, comma separated), `dflt`/`lo`/`hi` scalar tags
+float|int|npf64|npf32|npi64|npi32, `sd` (one scalar tag per sensor delay, comma separated), `sdc` auto|dict,
+`pred` bool|int|npbool.
+
 The single command-line argument selects the model variant: `hold` (one-sample series are held constant by
 `interpolate`) or `asfound` (they go through interp1d: 0/0).
 
@@ -114,9 +127,81 @@ def parseEntries (sec : String) : Option (List (GBEntry F)) :=
       else none
     | _ => none
 
+/-! ### the `types` section (python-level representation tags; validated, semantically ignored) -/
+
+abbrev Types := List (String × String)
+
+def parseTypes (sec : String) : Option Types :=
+  match words sec with
+  | "types" :: ws =>
+    ws.mapM fun w =>
+      match w.splitOn "=" with
+      | [k, t] => if k.isEmpty || t.isEmpty then none else some (k, t)
+      | _ => none
+  | _ => none
+
+/-- representable as a python int / numpy int32 / int64 without changing the value -/
+def isIntegral (x : F) : Bool := x.isFinite && x == x.floor && x.abs ≤ 2147483647.0
+/-- representable as a numpy float32 without changing the value -/
+def isF32 (x : F) : Bool := x.isFinite && x.toFloat32.toFloat == x
+
+def scalarTagOk (tag : String) (x : F) : Bool :=
+  match tag with
+  | "float" | "npf64" => true
+  | "int" | "npi64" | "npi32" => isIntegral x
+  | "npf32" => isF32 x
+  | _ => false
+
+def arrayTagOk (tag : String) (xs : List F) : Bool :=
+  match tag with
+  | "f64" | "view" => true
+  | "i64" => xs.all isIntegral
+  | _ => false
+
+def valueTagOk (tag : String) (v : List F) : Bool :=
+  match tag with
+  | "arr" | "list" => true
+  | "ilist" | "i64" => v.all isIntegral
+  | "f32" => v.all isF32
+  | "float" | "npf64" => v.length == 1
+  | "int" => v.length == 1 && v.all isIntegral
+  | _ => false
+
+def listTagOk {β : Type} (ok : String → β → Bool) (tags : String) (vals : List β) : Bool :=
+  let ts := tags.splitOn ","
+  ts.length == vals.length && (List.zipWith ok ts vals).all id
+
+def distinctKeys : List String → Bool
+  | [] => true
+  | k :: ks => !ks.contains k && distinctKeys ks
+
+/-- every key is allowed for this op (and given at most once) and its tag can represent the value -/
+def checkTypes (tys : Types) (allowed : List (String × (String → Bool))) : Bool :=
+  distinctKeys (tys.map (·.1)) &&
+  tys.all fun kt => allowed.any fun a => a.1 == kt.1 && a.2 kt.2
+
+def oneOf (l : List String) : String → Bool := fun t => l.contains t
+
+/-- the keys every op accepts: dtype/rank of `ts.data`, dtype of `ts.times`, form of the mapping indices -/
+def generalKeys {m : Nat} (op : String) (s : TS F m) : List (String × (String → Bool)) :=
+  [("data", fun t =>
+      t == "f64" ||
+      (t == "i64" && ["resample", "rdelay", "rdelaycol", "window", "dwindow"].contains op &&
+        s.samples.all (fun p => p.row.toList.all isIntegral)) ||
+      (t == "1d" && m == 1 && ["resample", "window", "dwindow"].contains op)),
+   ("tsd", fun t => arrayTagOk t (times s.samples) && t != "view"),
+   ("idx", oneOf ["i64", "i32", "list", "int"])]
+
 def step (hold : Bool) (line : String) : String :=
   match splitTrim line "|" with
-  | hd :: rest =>
+  | hd :: rest0 =>
+    let (rest, tysec) : List String × Option String :=
+      match rest0.getLast? with
+      | some l => if (words l).head? == some "types" then (rest0.dropLast, some l) else (rest0, none)
+      | none => (rest0, none)
+    match (match tysec with | none => some [] | some l => parseTypes l) with
+    | none => "bad-op"
+    | some tys =>
     match words (hd.takeWhile (· != ';')).toString with
     | [] => "bad-op"
     | op :: hdws =>
@@ -125,49 +210,65 @@ def step (hold : Bool) (line : String) : String :=
       match parseSeries sec0 with
       | none => "bad-op"
       | some ⟨m, s⟩ =>
+        let tyOk (extra : List (String × (String → Bool))) : Bool := checkTypes tys (generalKeys op s ++ extra)
         match op, rest with
         | "resample", [nt] =>
           match floats? (words nt) with
-          | some nt => showTS (resample hold s nt)
+          | some nt => if !tyOk [("nt", fun t => arrayTagOk t nt)] then "bad-op" else showTS (resample hold s nt)
           | none => "bad-op"
         | "bias", [name, v] =>
           match words name, floats? (words v) with
-          | [name], some v => showTS (applyBias s name v)
+          | [name], some v => if !tyOk [("v", fun t => valueTagOk t v)] then "bad-op" else showTS (applyBias s name v)
           | _, _ => "bad-op"
         | "gain", [name, v] =>
           match words name, floats? (words v) with
-          | [name], some v => showTS (applyGain s name v)
+          | [name], some v => if !tyOk [("v", fun t => valueTagOk t v)] then "bad-op" else showTS (applyGain s name v)
           | _, _ => "bad-op"
         | "delay", [name, d] =>
           match words name, floats? (words d) with
-          | [name], some [d] => showTS (applyDelay hold s name d)
+          | [name], some [d] => if !tyOk [("v", fun t => valueTagOk t [d])] then "bad-op" else showTS (applyDelay hold s name d)
           | _, _ => "bad-op"
         | "window", [b] =>
           match floats? (words b) with
-          | some [lo, hi] => showTS (applyTimeWindow s lo hi)
+          | some [lo, hi] =>
+            if !tyOk [("lo", fun t => scalarTagOk t lo), ("hi", fun t => scalarTagOk t hi)] then "bad-op"
+            else showTS (applyTimeWindow s lo hi)
           | _ => "bad-op"
         | "dwindow", [t2, b] =>
           match floats? (words t2), floats? (words b) with
-          | some t2, some [lo, hi] => showTS (applyDelayedWindow s t2 lo hi)
+          | some t2, some [lo, hi] =>
+            if !tyOk [("t2", fun t => arrayTagOk t t2), ("lo", fun t => scalarTagOk t lo), ("hi", fun t => scalarTagOk t hi)] then "bad-op"
+            else showTS (applyDelayedWindow s t2 lo hi)
           | _, _ => "bad-op"
         | "rdelay", [nt, dflt, sd, pred] =>
           match floats? (words nt), floats? (words dflt), parseDelays (words sd), (words pred) with
           | some nt, some [dflt], some sd, [p] =>
             match parseBool p with
-            | some p => showOpt (m := m) (applyResampleAndDelay hold s nt dflt sd p)
+            | some p =>
+              if !tyOk [("nt", fun t => arrayTagOk t nt), ("dflt", fun t => scalarTagOk t dflt),
+                        ("sd", fun t => listTagOk scalarTagOk t (sd.map (·.2))), ("sdc", oneOf ["auto", "dict"]),
+                        ("pred", oneOf ["bool", "int", "npbool"])] then "bad-op"
+              else showOpt (m := m) (applyResampleAndDelay hold s nt dflt sd p)
             | none => "bad-op"
           | _, _, _, _ => "bad-op"
         | "rdelaycol", [nt, dflt, sd, pred] =>
           match floats? (words nt), floats? (words dflt), parseDelays (words sd), (words pred) with
           | some nt, some [dflt], some sd, [p] =>
             match parseBool p with
-            | some p => showOpt (m := m) (applyResampleAndDelayColumnwise hold s nt dflt sd p)
+            | some p =>
+              if !tyOk [("nt", fun t => arrayTagOk t nt), ("dflt", fun t => scalarTagOk t dflt),
+                        ("sd", fun t => listTagOk scalarTagOk t (sd.map (·.2))), ("sdc", oneOf ["auto", "dict"]),
+                        ("pred", oneOf ["bool", "int", "npbool"])] then "bad-op"
+              else showOpt (m := m) (applyResampleAndDelayColumnwise hold s nt dflt sd p)
             | none => "bad-op"
           | _, _, _, _ => "bad-op"
         | "gb", [label, gains, biases] =>
           match words label, parseEntries gains, parseEntries biases with
           | [label], some g, some b =>
-            if label == "predicted" || label == "measured" then showTS (applyGainsBiases s label g b) else "bad-op"
+            if !(label == "predicted" || label == "measured") then "bad-op"
+            else if !tyOk [("gv", fun t => listTagOk valueTagOk t (g.map (·.value))),
+                           ("bv", fun t => listTagOk valueTagOk t (b.map (·.value)))] then "bad-op"
+            else showTS (applyGainsBiases s label g b)
           | _, _, _ => "bad-op"
         | _, _ => "bad-op"
   | [] => "bad-op"
